@@ -28,6 +28,9 @@ CONSTANTS
   FailSaves = FALSE
   Focus = FALSE
   Record = TRUE
+  RM = FALSE
+  Slots = 1
+  RmUuids = {1, 2}
   Scrapes = TRUE
   Marking = FALSE
   WindAt = 41
